@@ -842,6 +842,37 @@ def mutants(args):
     return 0 if not missed else 1
 
 
+def benign(args):
+    """Property-preserving edits a maintainer could make (mutants/benign): every listed check must stay silent."""
+    import glob, re, shutil, tempfile
+    results = []
+    for f in sorted(glob.glob(os.path.join(vlib.VERIF, "mutants", "benign", "*.diff"))):
+        name = os.path.basename(f)[:-5]
+        if args and not any(a in name for a in args):
+            continue
+        props = re.findall(r"C\d\d", name)
+        wt = tempfile.mkdtemp(prefix="verif-ben-", dir=os.environ.get("TMPDIR") or "/tmp")
+        os.rmdir(wt)
+        try:
+            vlib.sh(["git", "-C", "/repo", "worktree", "add", "--detach", wt, "HEAD", "-q"])
+            vlib.sh(["git", "-C", wt, "apply", f])
+            for prop in props:
+                env = dict(os.environ, VERIF_REPO=wt, VERIF_EVIDENCE_DIR=vlib.out_dir("mutant-evidence"))
+                t0 = time.time()
+                p = subprocess.run([os.path.join(vlib.VERIF, "check"), prop, "quick"], env=env, capture_output=True, text=True)
+                entry = {"benign_change": name, "check": prop, "rc": p.returncode, "wall_s": round(time.time() - t0, 1),
+                         "lines": [l[:300] for l in (p.stdout + p.stderr).splitlines() if l.startswith("VIOLATION") or "HARNESS" in l or l.startswith("[verif]   ")][:4]}
+                results.append(entry)
+                print(json.dumps(entry), flush=True)
+        finally:
+            subprocess.run(["git", "-C", "/repo", "worktree", "remove", "--force", wt], capture_output=True)
+            shutil.rmtree(wt, ignore_errors=True)
+    json.dump(results, open(os.path.join(vlib.out_dir(), "benign.json"), "w"), indent=1)
+    bad = [(r["benign_change"], r["check"]) for r in results if r["rc"] != 0]
+    print("benign: %d check runs, alarms or harness errors: %s" % (len(results), bad))
+    return 0 if not bad else 1
+
+
 def free_running_pass(sc, racebin, plain, seed):
     """The same task sets with real parallelism and no scheduler under -race: un-simulated, not seed-replayable.
     It exists to look where the baton cannot (inside one dependency call, goroutines a future edit spawns);
@@ -894,6 +925,8 @@ def main():
             return selftest()
         if args[0] == "mutants":
             return mutants(args[1:])
+        if args[0] == "benign":
+            return benign(args[1:])
         if args[0] == "--replay":
             import replay
             return replay.replay_file(args[1])
